@@ -10,18 +10,27 @@ import (
 
 // C23: every backend and every wrapper stacking behaves as one ordered byte-string map.
 // Stackings of depth <= 3 over {memory, leveldb (temp dir), pebble (temp dir)} with layers
-// table(prefix in {"",00,61,ff,ffff}) / flushable / synced; the op language of C22 addressed
+// table(prefix in {"",00,61,ff,ffff}) / flushable / synced (and, rarely, LazyFlushable); the op language of C22 addressed
 // to every level of the stack.
 
 var c23Prefixes = []string{"-", "00", "61", "ff", "ffff"}
 
 func c23History(r *rand.Rand) []string {
 	base := []string{"mem", "ldb", "pbl"}[r.Intn(3)]
+	if base != "mem" && r.Intn(40) == 0 {
+		base += "!" // fresh engine instance for this history only
+	}
 	header := []string{base}
 	depth := r.Intn(4)
 	var hints []string
 	for i := 0; i < depth; i++ {
-		switch r.Intn(3) {
+		x := r.Intn(3)
+		if r.Intn(12) == 0 {
+			x = 3
+		}
+		switch x {
+		case 3:
+			header = append(header, "z") // LazyFlushable
 		case 0:
 			p := c23Prefixes[r.Intn(len(c23Prefixes))]
 			header = append(header, "t"+p)
